@@ -355,6 +355,8 @@ class Ref:
         total = 0.0 + 0.0j
         scale = 0.0
         self.last_chain_abs = 0.0          # sum over all chains and orderings of |matrix-element product|
+        self.last_cond = 0.0               # beta^3 * sum over chains of |M| * sum_k |f_k| / prod_{j!=k} |z_k - z_j|: the sum of the
+                                           # absolute values of the individual Lehmann contributions (coinciding nodes count as distance 1)
         D = self.D
         for perm in itertools.permutations(range(3)):
             sign = perm_sign(perm)
@@ -393,6 +395,7 @@ class Ref:
             total += sign * np.sum(M * val)
             scale += float(np.sum(np.abs(M) * (w[s1] + w[s2] + w[s3] + w[s4])))
             self.last_chain_abs += float(np.sum(np.abs(M)))
+            self.last_cond += beta ** 3 * float(np.sum(np.abs(M) * _dd_cond4(beta, E[s1], E[s2], E[s3], E[s4], w[s1], w[s2], w[s3], w[s4], k1, k2, k3)))
         if return_scale:
             return complex(total) * beta ** 3, scale
         return complex(total) * beta ** 3
@@ -454,6 +457,30 @@ def _dd_exp4(beta, E1, E2, E3, E4, w1, w2, w3, w4, k1, k2, k3):
         faab = (fab - fa) / (b - a)
         fabb = (fb - fab) / (b - a)
         out[m] = (fabb - faab) / (b - a)
+    return out
+
+
+def _dd_cond4(beta, E1, E2, E3, E4, w1, w2, w3, w4, k1, k2, k3):
+    """sum_k |f_k| / prod_{j != k} |z_k - z_j| for the nodes of _dd_exp4; a pair of coinciding nodes (same rule as there)
+    counts as distance 1, which is the magnitude of the confluent (resonant) term"""
+    pi = math.pi
+    z = [np.zeros(len(E1), dtype=complex), beta * (E1 - E2) + 1j * pi * k1, beta * (E1 - E3) + 1j * pi * (k1 + k2),
+         beta * (E1 - E4) + 1j * pi * (k1 + k2 + k3)]
+    f = [np.abs(w1), np.abs(w2), np.abs(w3), np.abs(w4)]
+    tol = 1e-7 * max(beta, 1.0)
+    conf = {(0, 2): (k1 + k2 == 0) & (np.abs(z[2] - z[0]) < tol), (1, 3): (k2 + k3 == 0) & (np.abs(z[3] - z[1]) < tol)}
+    out = np.zeros(len(E1))
+    for k in range(4):
+        den = np.ones(len(E1))
+        for j in range(4):
+            if j == k:
+                continue
+            d = np.abs(z[k] - z[j])
+            c = conf.get((min(j, k), max(j, k)))
+            if c is not None:
+                d = np.where(c, 1.0, d)
+            den = den * d
+        out += f[k] / den
     return out
 
 
